@@ -223,6 +223,36 @@ func sortStrings(ss []string) {
 	}
 }
 
+// boolean connective over concrete booleans / tables of the same variable: stays a table
+func nativeBool2(name string, a, b value) (value, bool) {
+	ok := func(v value) (*cvar, bool) {
+		switch x := v.(type) {
+		case bool:
+			return nil, true
+		case *tab:
+			return x.v, true
+		}
+		return nil, false
+	}
+	va, oka := ok(a)
+	vb, okb := ok(b)
+	if !oka || !okb || (va != nil && vb != nil && va != vb) {
+		return nil, false
+	}
+	return lift2(a, b, func(x, y value) value {
+		p, q := x.(bool), y.(bool)
+		switch name {
+		case "vAnd":
+			return p && q
+		case "vOr":
+			return p || q
+		case "vImplies":
+			return !p || q
+		}
+		return p == q
+	}), true
+}
+
 func newBoolVar(name string) *term {
 	if rs.nBools >= poolBools {
 		panic(unsupported{"too many symbolic booleans"})
@@ -292,16 +322,36 @@ func harnessPrim(name string, args []value) (value, bool) {
 	case "vAssert":
 		doAssert(args[0], args[1].(string))
 		return nil, true
-	case "vAnd":
-		return boolVal(mkAnd(asBool(args[0]), asBool(args[1]))), true
-	case "vOr":
-		return boolVal(mkOr(asBool(args[0]), asBool(args[1]))), true
+	case "vAnd", "vOr", "vImplies", "vIff":
+		if r, ok := nativeBool2(name, args[0], args[1]); ok {
+			return r, true
+		}
+		x, y := asBool(args[0]), asBool(args[1])
+		switch name {
+		case "vAnd":
+			return boolVal(mkAnd(x, y)), true
+		case "vOr":
+			return boolVal(mkOr(x, y)), true
+		case "vImplies":
+			return boolVal(mkImplies(x, y)), true
+		}
+		return boolVal(mkIff(x, y)), true
 	case "vNot":
-		return boolVal(mkNot(asBool(args[0]))), true
-	case "vImplies":
-		return boolVal(mkImplies(asBool(args[0]), asBool(args[1]))), true
-	case "vIff":
-		return boolVal(mkIff(asBool(args[0]), asBool(args[1]))), true
+		return notVal(args[0]), true
+	case "vShow", "vShowList":
+		return "", true
+	case "vIteStr":
+		c := args[0]
+		if ct, ok := c.(*term); ok {
+			return mergeAlts([]alt{{ct, args[1]}, {mkNot(ct), args[2]}}), true
+		}
+		ab := lift2(args[1], args[2], func(a, b value) value { return tuple{a, b} })
+		return lift2(c, ab, func(c, ab value) value {
+			if c.(bool) {
+				return ab.(tuple)[0]
+			}
+			return ab.(tuple)[1]
+		}), true
 	case "vIsIDChar":
 		return isIDCharVal(args[0]), true
 	case "vConcretize":
